@@ -4,19 +4,29 @@
 //! delay comes before the item's (single, unbuffered) write. `seq`: the items in order from one thread; `par`: the stdout items from one
 //! thread and the stderr items from another, simultaneously. Writes its pid to $CNBV_PIDFILE (so that a watchdog can kill
 //! it) and exits on its own after 200 s whatever happens.
+//! Lifetime items (same four parts, len and seed are 0): `xo` / `xe` / `xb` = after the delay close stdout / stderr / both
+//! (`close(2)` of fd 1 / 2: the parent's read end sees EOF although the process lives on); `z` = stay alive for the delay and do
+//! nothing. A write to a stream that was closed fails (exit status 3); a stream is closed at most once. `par`: `xo` belongs to the stdout thread, `xe` to the
+//! stderr thread, `xb` and `z` run after both threads are done.
 use std::io::Write;
 use std::mem::ManuallyDrop;
 use std::os::fd::FromRawFd;
 
 fn item_bytes(len: usize, seed: usize, text: bool) -> Vec<u8> { (0..len).map(|i| if text { (97 + (seed + i) % 26) as u8 } else { ((seed + i) % 251) as u8 }).collect() }
 
-fn emit(items: &[(bool, usize, usize, u64, bool)]) -> bool {
+/// kinds of items: 0 = write to stdout, 1 = write to stderr, 2 = close stdout, 3 = close stderr, 4 = close both, 5 = stay alive
+type Item = (u8, usize, usize, u64, bool);
+
+fn close_fd(fd: i32) { drop(unsafe { std::fs::File::from_raw_fd(fd) }); }
+
+fn emit(items: &[Item]) -> bool {
     let mut out = ManuallyDrop::new(unsafe { std::fs::File::from_raw_fd(1) });
     let mut err = ManuallyDrop::new(unsafe { std::fs::File::from_raw_fd(2) });
-    for &(st, len, seed, delay, text) in items {
+    for &(kind, len, seed, delay, text) in items {
         if delay > 0 { std::thread::sleep(std::time::Duration::from_millis(delay)); }
+        match kind { 2 => { close_fd(1); continue; } 3 => { close_fd(2); continue; } 4 => { close_fd(1); close_fd(2); continue; } 5 => continue, _ => {} }
         let b = item_bytes(len, seed, text);
-        let r = if st { err.write_all(&b) } else { out.write_all(&b) };
+        let r = if kind == 1 { err.write_all(&b) } else { out.write_all(&b) };
         if r.is_err() { return false; }
     }
     true
@@ -28,23 +38,25 @@ fn main() {
     std::thread::spawn(|| { std::thread::sleep(std::time::Duration::from_secs(200)); std::process::exit(99); });
     let mode = args.get(1).map(String::as_str).unwrap_or("seq");
     let spec = args.get(2).map(String::as_str).unwrap_or("-");
-    let mut items = vec![];
+    let mut items: Vec<Item> = vec![];
     if spec != "-" && !spec.is_empty() {
         for it in spec.split(';') {
             let p: Vec<&str> = it.split('.').collect();
             if p.len() != 4 && !(p.len() == 5 && p[4] == "t") { std::process::exit(2); }
-            let st = match p[0] { "o" => false, "e" => true, _ => std::process::exit(2) };
+            let st: u8 = match p[0] { "o" => 0, "e" => 1, "xo" => 2, "xe" => 3, "xb" => 4, "z" => 5, _ => std::process::exit(2) };
+            if st >= 2 && (p.len() != 4 || p[1] != "0" || p[2] != "0") { std::process::exit(2); }
             let (Ok(len), Ok(seed), Ok(delay)) = (p[1].parse(), p[2].parse(), p[3].parse()) else { std::process::exit(2) };
             items.push((st, len, seed, delay, p.len() == 5));
         }
     }
     let ok = if mode == "par" {
-        let o: Vec<_> = items.iter().copied().filter(|i| !i.0).collect();
-        let e: Vec<_> = items.iter().copied().filter(|i| i.0).collect();
+        let o: Vec<Item> = items.iter().copied().filter(|i| i.0 == 0 || i.0 == 2).collect();
+        let e: Vec<Item> = items.iter().copied().filter(|i| i.0 == 1 || i.0 == 3).collect();
+        let tail: Vec<Item> = items.iter().copied().filter(|i| i.0 >= 4).collect();
         let t = std::thread::spawn(move || emit(&e));
         let a = emit(&o);
         let b = t.join().unwrap_or(false);
-        a && b
+        a && b && emit(&tail)
     } else { emit(&items) };
     std::process::exit(if ok { 0 } else { 3 });
 }
